@@ -2,6 +2,7 @@
 From Coq Require Import ZArith NArith List Bool Reals Floats.
 From PV Require Import Num NumR model.Optimiser model.OptSpec proofs.OptStruct proofs.OptLoop proofs.FloatFacts proofs.FloatZero proofs.HillClimb proofs.RealFacts.
 From PV Require Import model.Cli gen.GenCli proofs.CliFacts.
+From PV Require Import gen.GenFns proofs.SourceFacts.
 
 Theorem C18_kt_schedule :
   forall (NN : Num) (fexp : carrier NN -> carrier NN) (score : N -> list (carrier NN) -> option
@@ -129,4 +130,17 @@ Theorem C18_library_default_reaches_finish :
     1000)%R.
 Proof. exact lib_default_reaches_finish. Qed.
 Print Assumptions C18_library_default_reaches_finish.
+
+
+Theorem C18_cooling_factor_is_source :
+  forall (NN : Num) (fpow : carrier NN -> carrier NN -> carrier NN) (b : builder NN),
+    gen_cooling_factor NN fpow b (N.min (b_inner NN b) (b_steps NN b)) = factor NN (build NN
+    fpow b).
+Proof. exact cooling_factor_is_source. Qed.
+Print Assumptions C18_cooling_factor_is_source.
+
+Theorem C18_source_translated :
+  gen_fns_problem = String.EmptyString.
+Proof. exact source_translated. Qed.
+Print Assumptions C18_source_translated.
 
